@@ -257,11 +257,22 @@ def _worker(args):
                 if thorough or qn in framing():
                     gens.append(bytefam.i4_pairs(seed, thorough))
                 gens += [bytefam.i11_names(seed), bytefam.i12_magic(seed) if len(seed) <= 600 else ()]
+                is_frame = qn in framing()
+                probes = [seed, b'\x00\xc0\x80\x00\x00', b'\x00' * 64, b'\xff' * 64] + ([other] if other else [])
                 for gen in gens:
                     for tag, data in gen:
                         acc.count('inputs')
-                        if orc.check(cls, qn, data, tag) == 'ok':
+                        st = orc.check(cls, qn, data, tag)
+                        if st == 'ok':
                             acc.count('accepted_mutants')
+                        elif is_frame and st == 'doc' and len(data) <= 600:
+                            # a frame that is refused on its own must not become acceptable, with n inside it, because
+                            # of what follows it (two deviations: one octet changed, then data behind the frame)
+                            for suf in probes:
+                                acc.count('inputs')
+                                k, r = orc._call(cls, 'immutable', data + suf)
+                                if k == 'ok' and r[1] <= len(data):
+                                    orc.check(cls, qn, data + suf, tuple(tag) + ('followed_by_data',))
                 # I8: the seed followed by suffixes (all classes: clauses 1-3; framing: clause 5)
                 for tag, suf in bytefam.i8_suffixes(seed, other):
                     acc.count('inputs')
